@@ -80,13 +80,20 @@ class Classifier:
         return [dotted(e) or norm(e)]
 
     def exact_at(self, fi: FunctionInfo, g: CFG, node: int, var: str) -> bool:
-        for cn, pol in g.guards(node):
+        """every path to `node` took the succeeding edge of some test `type(var) is <exact builtin container>` (or the
+        failing edge of an `is not` test): `if t is list or t is set:`, `if t is not tuple: return ...` included"""
+        edges: List[Tuple[int, str]] = []
+        for cn in g.nodes:
+            if cn.kind != "cond" or cn.id == node:
+                continue
             a = cn.ast
-            if pol and isinstance(a, ast.Compare) and len(a.ops) == 1 and isinstance(a.ops[0], ast.Is):
+            if isinstance(a, ast.Compare) and len(a.ops) == 1 and isinstance(a.ops[0], (ast.Is, ast.IsNot)):
                 l, r = a.left, a.comparators[0]
                 for x, y in ((l, r), (r, l)):
                     if (dotted(y) or "") in EXACT_CONTAINERS and self._type_of_var(x, g, cn.id, var) and g.same_value(ast.Name(id=var), cn.id, node):
-                        return True
+                        edges.append((cn.id, "T" if isinstance(a.ops[0], ast.Is) else "F"))
+        if edges and node not in g.reach(g.entry, avoid_edges=edges, labels_excluded=("exc",)):
+            return True
         if var in fi.params and self.param_exact(fi, var):
             # the parameter must not be rebound before use
             return all(k == "param" for _, k, _ in g.origins(ast.Name(id=var), node))
@@ -272,6 +279,8 @@ class Classifier:
                     at = node_of(x)
                     if is_class_level(x.slice, at):
                         safe(x, "subscription with a class object (class-level only)")
+                    elif dotted(x.slice) is not None and self._all_str_guard(fi, g, at, x, dotted(x.slice)):
+                        safe(x, "key whose type is a subclass of str (builtin hashing)")
                     else:
                         hook(x, "use as a key hashes the value")
                 elif lv(x.value) >= T.VAL and isinstance(x.ctx, ast.Load):
@@ -301,26 +310,55 @@ class Classifier:
                     hook(x, "arithmetic/formatting operator")
                 continue
 
+    def _key_source(self, fi: FunctionInfo, x: ast.AST, var: str) -> Optional[str]:
+        """the container whose keys `var` ranges over at x (a comprehension generator or an enclosing for loop over
+        c / c.keys() / c.items())"""
+        def from_iter(target: ast.AST, it: ast.AST) -> Optional[str]:
+            names = [t.id for t in ast.walk(target) if isinstance(t, ast.Name)]
+            first = target.elts[0] if isinstance(target, (ast.Tuple, ast.List)) and target.elts else target
+            if isinstance(it, ast.Call) and isinstance(it.func, ast.Attribute) and it.func.attr in ("items", "keys") and not it.args:
+                if it.func.attr == "items" and not (isinstance(first, ast.Name) and first.id == var and isinstance(target, (ast.Tuple, ast.List))):
+                    return None
+                if it.func.attr == "keys" and not (isinstance(target, ast.Name) and target.id == var):
+                    return None
+                return dotted(it.func.value)
+            if isinstance(target, ast.Name) and target.id == var and var in names:
+                return dotted(it)
+            return None
+        if isinstance(x, (ast.DictComp, ast.SetComp)) and x.generators:
+            r = from_iter(x.generators[0].target, x.generators[0].iter)
+            if r is not None:
+                return r
+        for loop in [y for y in ast.walk(fi.node) if isinstance(y, ast.For)]:
+            if any(z is x for s_ in loop.body for z in ast.walk(s_)):
+                r = from_iter(loop.target, loop.iter)
+                if r is not None:
+                    return r
+        return None
+
     def _all_str_guard(self, fi: FunctionInfo, g: CFG, at: int, comp: ast.AST, var: str) -> bool:
-        """The keys come from a container whose every key passed issubclass(type(k), str)."""
-        if not isinstance(comp, ast.DictComp):
+        """The keys come from a container whose every key passed issubclass(type(k), str) (the test may be held in a
+        local name)."""
+        cont = self._key_source(fi, comp, var)
+        if cont is None:
             return False
-        it = comp.generators[0].iter if comp.generators else None
-        if not (isinstance(it, ast.Call) and isinstance(it.func, ast.Attribute) and it.func.attr in ("items", "keys")):
-            return False
-        cont = dotted(it.func.value)
         for cn, pol in g.guards(at):
-            a = cn.ast
-            if pol and is_call_to(a, "all") and a.args and isinstance(a.args[0], (ast.GeneratorExp, ast.ListComp)):
-                ge = a.args[0]
-                gen = ge.generators[0]
-                if gen.ifs or len(ge.generators) != 1:
-                    continue
-                src = gen.iter
-                if isinstance(src, ast.Call) and isinstance(src.func, ast.Attribute) and src.func.attr == "keys" and dotted(src.func.value) == cont or dotted(src) == cont:
-                    e = ge.elt
-                    if is_call_to(e, "issubclass") and len(e.args) == 2 and is_call_to(e.args[0], "type") and dotted(e.args[0].args[0]) == dotted(gen.target) and all(c in BUILTIN_SCALAR_CLASSES for c in self._class_names(e.args[1])):
-                        return True
+            if not pol:
+                continue
+            cands = [cn.ast]
+            if isinstance(cn.ast, ast.Name):
+                cands = [r for r, _, _ in g.origins(cn.ast, cn.id)]
+            for a in cands:
+                if is_call_to(a, "all") and a.args and isinstance(a.args[0], (ast.GeneratorExp, ast.ListComp)):
+                    ge = a.args[0]
+                    gen = ge.generators[0]
+                    if gen.ifs or len(ge.generators) != 1:
+                        continue
+                    src = gen.iter
+                    if isinstance(src, ast.Call) and isinstance(src.func, ast.Attribute) and src.func.attr == "keys" and dotted(src.func.value) == cont or dotted(src) == cont:
+                        e = ge.elt
+                        if is_call_to(e, "issubclass") and len(e.args) == 2 and is_call_to(e.args[0], "type") and dotted(e.args[0].args[0]) == dotted(gen.target) and all(c in BUILTIN_SCALAR_CLASSES for c in self._class_names(e.args[1])):
+                            return True
         return False
 
 
